@@ -29,6 +29,7 @@ RULE += (' Also: managers swallowing every BaseException the body raises.')
 RULE += (' Also: bodies raising subclasses of GeneratorExit / StopAsyncIteration.')
 RULE += (' Also: the decorated function as a plain function that works when called and returns an awaitable.')
 RULE += (" Also: contexts replacing the body's failure by a RuntimeError of their own.")
+RULE += (' Also: calls made from inside an except block of the caller.')
 ASSUMPTIONS = ["class-based ContextDecorator instances are shared between calls (documented default of _recreate_cm)"]
 EXHAUSTIVE_SUBSPACES = 'every scenario counted in scenarios_explored_exhaustively had ALL its interleavings executed'
 EXHAUSTIVE = {"quick": False, "thorough": False}
@@ -60,7 +61,8 @@ def cases(tier, seed, shard, nshards):
                "translate": rng.choice([None, None, "from", "from", "implicit", "from_none"]),
                # ... by an exception of its own that IS a RuntimeError (the type the generator protocol itself uses to
                # report a Stop(Async)Iteration that escaped): still the context's replacement, whatever the chaining
-               "translate_runtime": rng.random() < 0.4}
+               "translate_runtime": rng.random() < 0.4,
+               "while_handling": rng.random() < 0.3}
 
 
 BodyError = Planned  # the body's failure: one of the PLANNED family, chosen per scenario
@@ -249,7 +251,15 @@ def execute(case, choose, cancel_at=None):
             cid = counter["call"]
             ev.append((CTX.current, "call", cid, how))
             try:
-                r = await body(cid, how, func="F", self="S", args="A", kwds="K", cm="C")
+                if case.get("while_handling"):
+                    # the call is made from INSIDE an except block of its caller (a retry, a fallback): the exception
+                    # being handled out there is none of the call's business
+                    try:
+                        raise LookupError("an unrelated failure the caller is handling")
+                    except LookupError:
+                        r = await body(cid, how, func="F", self="S", args="A", kwds="K", cm="C")
+                else:
+                    r = await body(cid, how, func="F", self="S", args="A", kwds="K", cm="C")
             except BaseException as exc:  # noqa: BLE001
                 planned = raised.get(cid)
                 if not isinstance(exc, BodyError) and exc is not planned and exc is not translated.get(id(planned), (0, 0))[1]:
